@@ -332,11 +332,13 @@ def build_circuit(spec, name="net", style=None, pool=None):
         if ntname in nts:
             continue
         ov = nt.get("ov") or {}
+        # (spec["same_nt_names"]: different NodeTemplate objects may carry one and the same template name)
+        tname = "pop" if spec.get("same_nt_names") else ntname
         if any(ov.get(o) for o in nt["ops"]):
-            nts[ntname] = NodeTemplate(name=ntname, path=None,
+            nts[ntname] = NodeTemplate(name=tname, path=None,
                                        operators={ops[o]: dict(ov.get(o, {})) for o in nt["ops"]})
         else:
-            nts[ntname] = NodeTemplate(name=ntname, path=None, operators=[ops[o] for o in nt["ops"]])
+            nts[ntname] = NodeTemplate(name=tname, path=None, operators=[ops[o] for o in nt["ops"]])
     for etname, et in (spec.get("etypes") or {}).items():
         if etname in ets:
             continue
